@@ -2,14 +2,16 @@
 //
 // case:   W <flags> D <desc>          a description object: Serialize it, then treat the text as below
 //         C|V|X|M <flags> <hextext> [D <desc>]   a text (the description after D is only for the judge)
-//         O <flags> <hextext>         O1 probe: explicit tree automaton with its own alphabet, trimmed, dumped
+//         O <flags> <hextext> [D <desc>]   O1: explicit tree automaton with its own alphabet (SetAlphabet), loaded from the text,
+//                                     RemoveUnreachableStates, the result dumped with the dictionary of the load
 //   desc  = <name> <nsyms> {<name> <rank>}* <nstates> {<name>}* <nfinals> {<name>}* <nrules> {<sym> <parent> <k> <child>*}*
 //   name  = 'x' followed by the bytes in hex ("x" = the empty name); hextext = bytes in hex, "-" = empty
 //   flags = bit 0: the re-load uses the dictionary of the first load instead of a fresh one
 //           bit 1: the BDD automata use the process-wide default alphabet instead of a fresh one
 //           bit 2: the explicit tree automaton gets its own OnTheFlyAlphabet through SetAlphabet
 //           bit 3: the re-loaded BDD automaton gets another fresh alphabet
-// output: [S <hextext>] P (OK <desc> | EXC <class>) { <ENC> (OK <hexdump1> <hexdump2> | EXC <stage> <class>) } for ENC = ET BU TD FA
+// output: O cases: O1 (OK <hexdump> | EXC <class>); otherwise
+//         [S <hextext>] P (OK <desc> | EXC <class>) { <ENC> (OK <hexdump1> <hexdump2> | EXC <stage> <class>) } for ENC = ET BU TD FA
 //         stage: 1 load, 2 dump, 3 load of the dump, 4 dump again;  class: runtime_error | std_exception | non_std
 // A crash or a time-out (SIGALRM after 10 s per case, 60 s under ASan) ends the process; harness/core.py reports it for the case.
 #include <vata/explicit_tree_aut.hh>
